@@ -1,2 +1,39 @@
-From BMC Require Import Base.
-Theorem C18_placeholder : True. Proof. exact I. Qed.
+(* C18 — exported metrics account exactly for what happened. *)
+From BMC Require Import Base Prim Layers Packet Conn ConnProofs Metrics.
+From BMCProps Require Import Tie.
+
+(* inside one command: the retry closure's counters, placed as in the Go code (first-attempt flag, one
+   responses increment per decoded response incl. temporary ones), satisfy: retries = transmissions - 1,
+   responses = exactly the codes the loop counted, nothing else moves *)
+Theorem C18_command : forall pkt o script m,
+  let '(m', n) := sessionless_metered o script true m in
+  n = length (lr_sent (sessionless_loop pkt o script [] [])) /\
+  mt_retries m' = (mt_retries m + (n - 1))%nat /\
+  (exists codes, mt_responses m' = mt_responses m ++ codes /\ lr_codes (sessionless_loop pkt o script [] []) = codes) /\
+  mt_attempts m' = mt_attempts m /\ mt_failures m' = mt_failures m /\ mt_durations m' = mt_durations m.
+Proof.
+  intros pkt o script m. pose proof (sessionless_metered_law pkt o script true m) as H.
+  destruct (sessionless_metered o script true m) as [m' n].
+  destruct H as [_ [H2 [H3 [[codes [H4 H5]] [H6 [H7 H8]]]]]]. repeat split; auto.
+  exists codes. split; [exact H4|]. rewrite (H5 [] []). reflexivity.
+Qed.
+
+(* over every history of dials, opens, closes and commands: the conservation laws *)
+Theorem C18_conservation : forall h,
+  let m := run_history h in
+  mt_attempts m = cmd_names h /\ mt_failures m = cmd_failed h /\ mt_retries m = cmd_retries h /\
+  mt_responses m = cmd_codes h /\ mt_durations m = length (cmd_names h) /\
+  mt_sess_attempts m = count is_open h /\ mt_sess_failures m = count is_open_fail h /\
+  mt_sessions_open m = (Z.of_nat (count is_open_ok h) - Z.of_nat (count is_close h))%Z /\
+  mt_conn_attempts m = count is_dial h /\ mt_conn_failures m = count is_dial_fail h /\
+  mt_conns_open m = (Z.of_nat (count is_dial_ok h) - Z.of_nat (count is_connclose h))%Z.
+Proof. exact conservation. Qed.
+
+Theorem C18_no_drift : forall h,
+  count is_open_ok h = count is_close h -> count is_dial_ok h = count is_connclose h ->
+  mt_sessions_open (run_history h) = 0%Z /\ mt_conns_open (run_history h) = 0%Z.
+Proof. exact gauges_do_not_drift. Qed.
+
+(* which codes count as temporary is what the source says now *)
+Theorem C18_temporary_codes_tie : forall c, is_temporary c = existsb (N.eqb c) G.temporary_codes.
+Proof. exact tie_temporary_codes. Qed.
